@@ -71,6 +71,9 @@ def make_provider(kind):
                                          "post_logout_redirect_uri": [("https://client_1.example.com/post_logout", None)]}
         kw["client_over"]["client_3"]["frontchannel_logout_uri"] = "https://client_3.example.com/fc_logout"
         kw["client_over"]["client_3"]["frontchannel_logout_session_required"] = True
+    if kind.get("sub_func"):
+        # configured subject minters (session_params.sub_func): the public identifier is salted with a configured value
+        kw["sub_func"] = {"public": {"class": "idpyoidc.server.session.manager.PublicID", "kwargs": {"salt": "c13-configured-salt"}}}
     if pin == "jwks_def":
         extra["token_handler_args"] = jwks_def_args(os.path.join(srv.RUN, "c13_token_jwks.json"))
     server = srv.make_server(extra=extra or None, **kw) if pin in ("pwsalt", "jwks_def") else None
@@ -736,3 +739,413 @@ class RPx:
                            "registration_response": getattr(c, "registration_response", None),
                            "hash_seed": c.hash_seed.hex() if isinstance(c.hash_seed, bytes) else repr(c.hash_seed),
                            "iss_hash": c.iss_hash})
+
+
+# ======================================================================================= relying party: sessions
+# A relying party driven through its public API (StandAloneClient / RPHandler) against a scripted provider: sessions are
+# begun, completed (ID Token with sub / sid), refreshed, logged out (RP-initiated + callback, back channel, front
+# channel) and cleared; every key the RP binds to a session (nonce, subject, session id, logout state) is looked up.
+RPS_OP = "https://op.example.com"
+RPS_BASE = "https://rp.example.com"
+RPS_SERVICES = {"authorization": {"class": "idpyoidc.client.oidc.authorization.Authorization"},
+                "accesstoken": {"class": "idpyoidc.client.oidc.access_token.AccessToken"},
+                "refresh_token": {"class": "idpyoidc.client.oidc.refresh_access_token.RefreshAccessToken"},
+                "userinfo": {"class": "idpyoidc.client.oidc.userinfo.UserInfo"},
+                "end_session": {"class": "idpyoidc.client.oidc.end_session.EndSession"}}
+RPS_CONF = {"issuer": RPS_OP, "client_id": "client_1", "client_secret": "abcdefghijklmnopqrstuvwxyz012345",
+            "client_type": "oidc", "base_url": RPS_BASE, "redirect_uris": [RPS_BASE + "/cb"],
+            "post_logout_redirect_uris": [RPS_BASE + "/post_logout"],
+            "backchannel_logout_uri": RPS_BASE + "/bc_logout", "backchannel_logout_session_required": True,
+            "frontchannel_logout_uri": RPS_BASE + "/fc_logout", "frontchannel_logout_session_required": True,
+            "client_authn_methods": ["client_secret_basic", "client_secret_post"],
+            "hash_seed": "c13-rp-hash-seed",
+            "provider_info": {"issuer": RPS_OP, "authorization_endpoint": RPS_OP + "/authorization",
+                              "token_endpoint": RPS_OP + "/token", "userinfo_endpoint": RPS_OP + "/userinfo",
+                              "end_session_endpoint": RPS_OP + "/end_session",
+                              "backchannel_logout_supported": True, "backchannel_logout_session_required": True,
+                              "frontchannel_logout_supported": True, "frontchannel_logout_session_required": True},
+            "services": RPS_SERVICES}
+_RPS_KEYS = {}
+
+
+def rps_keys(who):
+    """configured key material (key files): the provider's signing key, the relying party's own keys"""
+    if who not in _RPS_KEYS:
+        from cryptojwt.key_jar import init_key_jar
+        if who == "op":
+            _RPS_KEYS[who] = init_key_jar(key_defs=[{"type": "RSA", "use": ["sig"]}], issuer_id=RPS_OP, read_only=False,
+                                          private_path=os.path.join(srv.RUN, "c13_rps_op_jwks.json"))
+        else:
+            _RPS_KEYS[who] = init_key_jar(key_defs=[{"type": "EC", "crv": "P-256", "use": ["sig"]}], issuer_id="", read_only=False,
+                                          private_path=os.path.join(srv.RUN, "c13_rps_rp_jwks.json"))
+    return _RPS_KEYS[who]
+
+
+class _Resp:
+    def __init__(self, status, text):
+        self.status_code, self.text, self.headers, self.url = status, text, {"content-type": "application/json"}, ""
+
+
+class OpStub:
+    """the provider as the relying party's HTTP client sees it: the next answer of each endpoint is scripted"""
+
+    def __init__(self):
+        self.next = {}
+
+    def __call__(self, method, url, data=None, headers=None, **kw):
+        ep = url.split("?")[0].rsplit("/", 1)[-1]
+        return _Resp(*self.next.get(ep, (404, '{"error": "not_scripted"}')))
+
+
+# ---- the calls the library makes on the RP's state store, as operations of Model.ImpExp (cur_step)
+CUR_OWNER = {}        # id(Current instance) -> RPs that owns it
+_CUR_SAVED = {}
+
+
+def cur_log_install():
+    from idpyoidc.client.current import Current
+    from idpyoidc.message import Message
+
+    def plain(x):
+        return x.to_dict() if isinstance(x, Message) else x
+
+    def wrap(name):
+        orig = getattr(Current, name)
+        _CUR_SAVED[name] = orig
+
+        def f(self, *args, **kw):
+            own = CUR_OWNER.get(id(self))
+            if own is None or own.cur is not self:
+                return orig(self, *args, **kw)
+            a = copy.deepcopy([plain(x) for x in args])
+            try:
+                r = orig(self, *args, **kw)
+            except Exception as e:
+                own.log.append((name, a, ("exc", type(e).__name__)))
+                raise
+            own.log.append((name, a, ("ok", copy.deepcopy(r) if isinstance(r, (dict, str)) else None)))
+            return r
+        setattr(Current, name, f)
+
+    if not _CUR_SAVED:
+        for n in ("set", "update", "bind_key", "remove_state", "get_base_key", "get"):
+            wrap(n)
+
+
+def cur_log_uninstall():
+    from idpyoidc.client.current import Current
+    for n, f in _CUR_SAVED.items():
+        setattr(Current, n, f)
+    _CUR_SAVED.clear()
+    CUR_OWNER.clear()
+
+
+class RPs:
+    """One relying party + the tables that make outcomes canonical (states, nonces, logout states -> indices)."""
+    SUBS = ["diana", "babs"]
+
+    def __init__(self, variant="sac"):
+        from idpyoidc.client.oauth2.stand_alone_client import StandAloneClient
+        self.variant = variant
+        self.op = OpStub()
+        conf = copy.deepcopy(RPS_CONF)
+        self.rph = None
+        if variant == "rph":
+            from idpyoidc.client.rp_handler import RPHandler
+            self.rph = RPHandler(base_url=RPS_BASE, client_configs={RPS_OP: conf}, httpc=self.op, httpc_params={},
+                                 keyjar=rps_keys("rp").copy(), hash_seed="c13-rph-hash-seed")
+            self.client = self.rph.client_setup(RPS_OP)
+        else:
+            self.client = StandAloneClient(config=conf, httpc=self.op, httpc_params={}, keyjar=rps_keys("rp").copy())
+            self.client.do_provider_info()
+            self.client.do_client_registration()
+        self.client.get_attribute("keyjar").import_jwks(rps_keys("op").export_jwks(issuer_id=RPS_OP), RPS_OP)
+        self.states, self.nonces, self.lstates, self.sess, self.extras = [], [], [], [], []
+        self.nat = 0
+        self.log = []
+        self.register()
+
+    # ---- tables
+    def tables(self):
+        return copy.deepcopy({"states": self.states, "nonces": self.nonces, "lstates": self.lstates, "sess": self.sess,
+                              "nat": self.nat, "extras": self.extras})
+
+    def set_tables(self, t):
+        t = copy.deepcopy(t)
+        self.states, self.nonces, self.lstates, self.sess, self.nat = t["states"], t["nonces"], t["lstates"], t["sess"], t["nat"]
+        self.extras = t["extras"]
+
+    @property
+    def ctx(self):
+        return self.client.get_context()
+
+    @property
+    def cur(self):
+        return self.client.get_context().cstate
+
+    def register(self):
+        CUR_OWNER[id(self.cur)] = self
+
+    # ---- export / import (tests/test_client_41_rp_handler_persistent.py: context + services)
+    def dump(self):
+        return {"context": self.ctx.dump(), "services": self.client.get_services().dump()}
+
+    def load(self, d):
+        self.ctx.load(d["context"])
+        # (the services reach their client through unit_get, as the ones the constructor builds; the recipe of
+        #  tests/test_client_41 hands them client.upstream_get, which is None for a stand-alone client)
+        self.client.get_services().load(d["services"], init_args={"upstream_get": self.client.unit_get})
+        self.client.get_attribute("keyjar").import_jwks(rps_keys("op").export_jwks(issuer_id=RPS_OP), RPS_OP)
+        self.register()
+        self.log.append(("restore", [], ("ok", None)))
+
+    # ---- canonical views
+    def st(self, i):
+        return self.states[i] if i < len(self.states) else "no-such-state"
+
+    def canon(self, x):
+        from idpyoidc.message import Message
+        if isinstance(x, Message):
+            x = x.to_dict()
+        if isinstance(x, dict):
+            return {str(self.canon(k)): self.canon(v) for k, v in x.items()}
+        if isinstance(x, (list, tuple)):
+            return [self.canon(v) for v in x]
+        if isinstance(x, bytes):
+            return "bytes:" + x.hex()
+        if isinstance(x, str):
+            for name, tab in (("state", self.states), ("nonce", self.nonces), ("lstate", self.lstates), ("extra", self.extras)):
+                if x in tab:
+                    return "<%s %d>" % (name, tab.index(x))
+            if x.startswith("eyJ") and x.count(".") == 2:
+                c = jwt_claims(x) or {}
+                return "<jwt %s>" % json.dumps(self.canon({k: c[k] for k in ("sub", "sid", "nonce", "iat", "exp", "events") if k in c}),
+                                               sort_keys=True)
+        return x
+
+    def snapshot(self):
+        c = self.cur
+        return self.canon({"db": c._db, "map": c._map})
+
+    def run(self, op):
+        try:
+            out = self.canon(getattr(self, "op_" + op[0])(*op[1:]))
+        except Exception as e:
+            out = ["exc", type(e).__name__]
+        c = self.cur
+        self.log.append(("snap", [], ("ok", (copy.deepcopy(c._db), copy.deepcopy(c._map)))))
+        return out
+
+    # ---- the scripted provider
+    def id_token(self, i, sub, sid):
+        from idpyoidc.message.oidc import IdToken
+        n = self.nonces[i] if i < len(self.nonces) else "no-such-nonce"
+        args = {"nonce": n, "sub": sub, "iss": RPS_OP, "aud": "client_1"}
+        if sid:
+            args["sid"] = sid
+        return IdToken(**args).to_jwt(key=rps_keys("op").get_signing_key(issuer_id=RPS_OP), algorithm="RS256", lifetime=300)
+
+    def logout_token(self, **ident):
+        from cryptojwt.jwt import JWT
+        from idpyoidc.message.oidc.session import BACK_CHANNEL_LOGOUT_EVENT
+        payload = {"aud": ["client_1"], "jti": "logout-%d" % self.nat, "events": {BACK_CHANNEL_LOGOUT_EVENT: {}}}
+        payload.update(ident)
+        return JWT(key_jar=rps_keys("op"), iss=RPS_OP, sign_alg="RS256", lifetime=300).pack(payload=payload)
+
+    def session(self, i):
+        return self.sess[i] if i < len(self.sess) and self.sess[i] else {"sub": "nobody", "sid": "no-sid"}
+
+    # ---- operations
+    def op_tick(self, d):
+        clock = getattr(self, "clock", None)
+        if clock is not None:
+            clock.now += d
+        return ["ok"]
+
+    def op_begin(self, scope, reuse=None):
+        from urllib.parse import parse_qs, urlsplit
+        args = {"scope": list(scope)}
+        if reuse is not None and reuse[0] == "nonce" and reuse[1] < len(self.nonces):
+            args["nonce"] = self.nonces[reuse[1]]       # a second authorization request that re-uses an earlier nonce
+        before = set(self.cur._map) | set(self.cur._db)
+        try:
+            url = self.rph.begin(RPS_OP, req_args=args) if self.rph else self.client.init_authorization(req_args=args)
+        except Exception:
+            # (a refused request leaves the state and the nonce it drew behind: random keys nobody was told)
+            self.extras += [k for k in list(self.cur._db) + list(self.cur._map) if k not in before and k not in self.extras]
+            raise
+        q = {k: v[0] for k, v in parse_qs(urlsplit(url).query).items()}
+        # (init_authorization draws and binds a nonce of its own even when the caller supplies one: a random key nobody sent)
+        self.extras += [k for k in self.cur._map if k not in before and k != q.get("nonce")]
+        self.states.append(q["state"])
+        self.nonces.append(q.get("nonce", "no-nonce") if q.get("nonce") not in self.nonces else "re-used-nonce-%d" % len(self.nonces))
+        while len(self.sess) < len(self.states):
+            self.sess.append(None)
+        return ["ok", q]
+
+    def op_finalize(self, i, sub, sid, rt=True):
+        self.nat += 1
+        idt = self.id_token(i, sub, sid)
+        tok = {"access_token": "at-%d" % self.nat, "token_type": "Bearer", "id_token": idt, "expires_in": 600}
+        if rt:
+            tok["refresh_token"] = "rt-%d" % self.nat
+        self.op.next["token"] = (200, json.dumps(tok))
+        self.op.next["userinfo"] = (200, json.dumps({"sub": sub, "email": sub + "@example.org"}))
+        resp = {"code": "code-%d" % self.nat, "state": self.st(i)}
+        if i < len(self.sess):
+            self.sess[i] = {"sub": sub, "sid": sid or "no-sid"}
+        r = self.rph.finalize(RPS_OP, resp) if self.rph else self.client.finalize(resp)
+        return ["ok", r]
+
+    def op_refresh(self, i, with_idt=False):
+        self.nat += 1
+        tok = {"access_token": "at-%d" % self.nat, "token_type": "Bearer", "expires_in": 600, "refresh_token": "rt-%d" % self.nat}
+        if with_idt:
+            s = self.session(i)
+            tok["id_token"] = self.id_token(i, s["sub"], s["sid"] if s["sid"] != "no-sid" else None)
+        self.op.next["token"] = (200, json.dumps(tok))
+        api = self.rph or self.client
+        return ["ok", api.refresh_access_token(self.st(i))]
+
+    def op_userinfo(self, i):
+        s = self.session(i)
+        self.op.next["userinfo"] = (200, json.dumps({"sub": s["sub"], "email": s["sub"] + "@example.org", "n": self.nat}))
+        api = self.rph or self.client
+        return ["ok", api.get_user_info(self.st(i))]
+
+    def op_clear(self, i):
+        (self.rph or self.client).clear_session(self.st(i))
+        return ["ok"]
+
+    def op_logout(self, i):
+        from urllib.parse import parse_qs, urlsplit
+        info = (self.rph or self.client).logout(self.st(i))
+        q = {k: v[0] for k, v in parse_qs(urlsplit(info["url"]).query).items()}
+        self.lstates.append(q.get("state", "no-logout-state"))
+        return ["ok", q]
+
+    def op_logout_cb(self, k, clear=True):
+        """the post-logout redirect comes back with the logout state (example/flask_rp: session_logout)"""
+        ls = self.lstates[k] if k < len(self.lstates) else "no-such-logout-state"
+        st = self.cur.get_base_key(ls)
+        if clear:
+            self.client.clear_session(st)
+        return ["ok", st]
+
+    def op_bc_logout(self, by, i, clear=True):
+        from idpyoidc.client.oauth2.stand_alone_client import backchannel_logout
+        s = self.session(i)
+        tok = self.logout_token(**({"sub": s["sub"]} if by == "sub" else {"sid": s["sid"]}))
+        st = backchannel_logout(self.client, request_args={"logout_token": tok})
+        if clear:
+            self.client.clear_session(st)
+        return ["ok", st]
+
+    def op_fc_logout(self, i):
+        """front-channel logout: the provider names the session id (example/flask_rp: frontchannel_logout)"""
+        st = self.cur.get_base_key(self.session(i)["sid"])
+        self.client.clear_session(st)
+        return ["ok", st]
+
+    def op_lookup(self, kind, i):
+        if kind == "nonce":
+            k = self.nonces[i] if i < len(self.nonces) else "no-such-nonce"
+        elif kind == "lstate":
+            k = self.lstates[i] if i < len(self.lstates) else "no-such-logout-state"
+        else:
+            k = self.session(i)[kind]
+        return ["ok", self.cur.get_base_key(k)]
+
+    def op_info(self, i):
+        return ["ok", (self.rph or self.client).get_session_information(self.st(i))]
+
+    def op_active(self, i):
+        api = self.rph or self.client
+        return ["ok", api.has_active_authentication(self.st(i)), list(api.get_valid_access_token(self.st(i)))]
+
+
+# ======================================================================================= attribute census
+CENSUS_ATOMS = (str, bytes, int, float, bool, type(None))
+
+
+def _qn(c):
+    return c.__module__ + "." + c.__name__
+
+
+def attr_view(v, depth=0):
+    """what an attribute holds, comparable across instances: JSON-like values as they are, ImpExp children and other
+    objects by class (an ImpExp child is an instance of the census itself)"""
+    from idpyoidc.impexp import ImpExp
+    from idpyoidc.message import Message
+    if isinstance(v, bytes):
+        return "bytes:" + v.hex()
+    if isinstance(v, CENSUS_ATOMS):
+        return v
+    if isinstance(v, type):
+        return "class:" + _qn(v)
+    if isinstance(v, Message):
+        return {"msg:" + _qn(type(v)): attr_view(v.to_dict(), depth + 1)}
+    if isinstance(v, ImpExp):
+        return "impexp:" + _qn(type(v))
+    if depth > 6:
+        return "..."
+    if isinstance(v, dict):
+        return {str(k): attr_view(x, depth + 1) for k, x in v.items()}
+    if isinstance(v, (list, tuple, set, frozenset)):
+        r = [attr_view(x, depth + 1) for x in v]
+        return sorted(r, key=repr) if isinstance(v, (set, frozenset)) else r
+    if callable(v):
+        return "callable:" + getattr(v, "__qualname__", type(v).__name__)
+    return "obj:" + _qn(type(v))
+
+
+def impexp_instances(root, limit=4000):
+    """access path -> instance, for every ImpExp instance reachable from root through attributes, dicts, lists, DLDict"""
+    from idpyoidc.impexp import ImpExp
+    out, seen, stack = {}, set(), [((), root)]
+    while stack and len(out) < limit:
+        path, o = stack.pop()
+        if isinstance(o, CENSUS_ATOMS) or id(o) in seen:
+            continue
+        seen.add(id(o))
+        if isinstance(o, ImpExp):
+            out[path] = o
+            kids = [((".", a), v) for a, v in vars(o).items() if a != "upstream_get"]
+        elif isinstance(o, dict):
+            kids = [(("k", str(k)), v) for k, v in o.items()]
+        elif isinstance(o, (list, tuple)):
+            kids = [(("i", i), v) for i, v in enumerate(o)]
+        else:
+            continue
+        for step, v in kids:
+            stack.append((path + (step,), v))
+    return out
+
+
+def census_rows(live, fresh, restored):
+    """for every ImpExp instance reachable in `live` and every attribute it carries: (class, attr, verdict, live view,
+    fresh view, restored view); verdict: exported | init-arg | config (as a fresh instance has it) | rebuilt (as the
+    restored twin has it) | lost (differs in the restored twin: state or configuration that neither dump nor load carry)"""
+    ia, i_f, ib = impexp_instances(live), impexp_instances(fresh), impexp_instances(restored)
+    rows = []
+    for path, o in ia.items():
+        cls = type(o)
+        if not cls.__module__.startswith("idpyoidc."):
+            continue        # (an instrumented stand-in of the harness, e.g. the write log of the session database)
+        exported = set(cls.parameter) | set(cls.special_load_dump)
+        fo, bo = i_f.get(path), ib.get(path)
+        for a, v in vars(o).items():
+            if a in exported:
+                rows.append((_qn(cls), a, "exported", None, None, None))
+                continue
+            if a in cls.init_args:
+                rows.append((_qn(cls), a, "init-arg", None, None, None))
+                continue
+            va = attr_view(v)
+            vf = attr_view(getattr(fo, a, "<absent>")) if fo is not None else "<no-such-instance>"
+            vb = attr_view(getattr(bo, a, "<absent>")) if bo is not None else "<no-such-instance>"
+            if vb == va:
+                rows.append((_qn(cls), a, "config" if vf == va else "rebuilt", va, vf, vb))
+            else:
+                rows.append((_qn(cls), a, "lost", va, vf, vb))
+    return rows
